@@ -82,7 +82,7 @@ func (ff faultFile) Chown(uid, gid int) error {
 	}
 	return hackpadfs.ChownFile(ff.File, uid, gid)
 }
-func (ff faultFile) Truncate(size int64) error { return hackpadfs.TruncateFile(ff.File, size) }
+func (ff faultFile) Truncate(size int64) error          { return hackpadfs.TruncateFile(ff.File, size) }
 func (ff faultFile) Seek(o int64, w int) (int64, error) { return hackpadfs.SeekFile(ff.File, o, w) }
 func (ff faultFile) Close() error {
 	if ff.name[0] == 'w' { // only handles opened for writing: a failing Close can lose data
